@@ -84,6 +84,8 @@ class El(Ext):
 
     def sym_copy(self):
         c = El(self.tag, dict(self.attrib), [ch.sym_copy() for ch in self.children], name=self.name + "'")
+        if getattr(self, "_nsmap", None):
+            c._nsmap = dict(self._nsmap)
         return c
 
     def sym_getitem(self, it, k):
@@ -98,13 +100,20 @@ class El(Ext):
     def sym_len(self):
         return len(self.children)
 
+    def sym_setslice(self, it, items):
+        # el[:] = nodes : the old children are dropped, the new ones move here (lxml moves, never copies)
+        for c in list(self.children):
+            c._detach()
+        for c in items:
+            self._append(c)
+
     def sym_getattr(self, it, attr):
         if attr == "tag":
             return self.tag
         if attr == "attrib":
             return self.attrib
         if attr == "nsmap":
-            return {None: SVGNS}
+            return dict(getattr(self, "_nsmap", None) or {None: SVGNS})
         if attr == "getparent":
             return PyCallable(lambda i, a, k: self.parent)
         if attr == "index":
